@@ -26,9 +26,16 @@ INIT_PROP = Fn("init_proposal", ["obs", "prev"], [Sample("x", "x", normal, ["obs
 EXT_PROP = Fn("ext_proposal", ["obs", "old", "prev"], [Sample("x", "x", normal, ["obs['y'] * 0.5 + prev * 0.25 + old['x'] * 0.25", "1.0"])], "x")
 
 
+# a step model with TWO latents and proposals that propose only ONE of them (the model samples the other itself)
+MODEL2 = Fn("step_model2", ["prev"], [Sample("a", "a", normal, ["prev", "1.0"]), Sample("b", "b", normal, ["a", "0.75"]),
+                                      Sample("y", "y", normal, ["a + b", "0.5"])], "a")
+INIT_PROP2 = Fn("init_proposal2", ["obs", "prev"], [Sample("a", "a", normal, ["obs['y'] * 0.5 + prev * 0.5", "1.0"])], "a")
+EXT_PROP2 = Fn("ext_proposal2", ["obs", "old", "prev"], [Sample("a", "a", normal, ["obs['y'] * 0.5 + prev * 0.25 + old['a'] * 0.25", "1.0"])], "a")
+
+
 def groups(tier, seed):
     Ns = (1, 2, 3)
-    gs = []
+    gs = ["init_partial:2", "extend_partial:2", "extend_partial:1"]
     for n in Ns:
         gs += [f"init_default:{n}", f"init_custom:{n}", f"extend_default:{n}", f"extend_custom:{n}"]
     gs += ["rejuvenate:2", "change:2", "lml:3", "estimate:2", "rsmc:2"]
@@ -66,6 +73,8 @@ def run_group(g, gid):
     from genjax import const, sel
     kind, _, n = gid.partition(":")
     N = int(n)
+    if kind in ("init_partial", "extend_partial"):
+        return partial_proposal(g, kind, N)
     gf = rs.to_genjax(MODEL)
     ip = rs.to_genjax(INIT_PROP)
     ep = rs.to_genjax(EXT_PROP)
@@ -290,3 +299,79 @@ def rsmc(g, N):
     g.eq("rejuvenation_smc: final log weights == hand-composed pipeline", P1.log_weights, P2.log_weights, A)
     g.eq("rejuvenation_smc: accumulated estimate == hand-composed pipeline", P1.log_marginal_estimate, P2.log_marginal_estimate, A)
     g.eq("rejuvenation_smc: final traces == hand-composed pipeline", rs.canon_trace(P1.traces), rs.canon_trace(P2.traces), A)
+
+
+def partial_proposal(g, kind, N):
+    """user-supplied proposals that cover only part of the new latents: the model samples the rest from its own
+    conditional prior, whose density cancels; log w = log p(all choices, obs) - log q(proposed) - log p(self-sampled | parents)"""
+    from genjax.inference import smc
+    from genjax import const
+    gf, ip, ep = rs.to_genjax(MODEL2), rs.to_genjax(INIT_PROP2), rs.to_genjax(EXT_PROP2)
+    g.programs.add(kind)
+    g.sample(model=rs.source(MODEL2), proposal=rs.source(INIT_PROP2 if kind == "init_partial" else EXT_PROP2), move=kind)
+    obs = {"y": jnp.float32(0.5)}
+    cov = lambda p: p in (("a",), ("y",))          # addresses fixed by proposal / observation; b is drawn by the model
+    if kind == "init_partial":
+        T = g.try_trace("init with a partial proposal traces", lambda o, a: smc.init(gf, (a,), const(N), o, ip), obs, jnp.float32(0.1))
+        if T is None:
+            return
+        o_s, a_s = T.ins
+        Q, old_w, old_refs, args_of = T.outs, None, None, lambda i: a_s
+    else:
+        shp = jax.eval_shape(lambda: smc.init(gf, (jnp.float32(0.1),), const(N), {"y": jnp.float32(0.5)}))
+        p0 = gfi.zeros_like_shape(shp)
+        T = g.try_trace("extend with a partial proposal traces", lambda p, args, o: smc.extend(p, gf, args, o, ep), p0, jnp.zeros(N, jnp.float32), obs)
+        if T is None:
+            return
+        p_s, args_s, o_s = T.ins
+        Q = T.outs
+        c0 = rs.canon_trace(p_s.traces)
+        inv, old_refs = [], []
+        for i in range(N):
+            ci = lane(c0, i)
+            a, kw = rs.args_of_canon(ci)
+            ref = rs.ref_eval(MODEL2, rs.state_of_canon(ci), list(a), dict(kw), rs.RefCtx())
+            inv.append(solve.eq_trees(ci, ref.canon()))
+            old_refs.append(ref)
+        g.assume(*inv)
+        old_w = p_s.log_weights
+        args_of = lambda i: sj.obj(sj.obj(args_s)[i])
+    c = rs.canon_trace(Q.traces)
+    vm = gfi.var_site_map(T)
+    seen = set()
+    for i in range(N):
+        ci = lane(c, i)
+        ai = args_of(i)
+        rctx = rs.RefCtx()
+        ref = rs.ref_eval(MODEL2, rs.state_of_canon(ci), [ai], {}, rctx)
+        g.eq(f"N={N} particle {i}: coherent trace of the model holding the observation", ci, ref.canon())
+        g.eq(f"N={N} particle {i}: observation unchanged", ref.get_choices()["y"], o_s["y"])
+        aval = ref.get_choices()["a"]
+        if kind == "init_partial":
+            q = rs.ref_eval(INIT_PROP2, {"a": aval}, [o_s, ai], {}, rs.RefCtx())
+        else:
+            q = rs.ref_eval(EXT_PROP2, {"a": aval}, [o_s, old_refs[i].get_choices(), ai], {}, rs.RefCtx())
+        inc = gfi.add(ref_weight(MODEL2, ref, cov), q.get_score())          # log p(a) + log p(y | a, b) - log q(a)
+        want = inc if old_w is None else gfi.add(sj.obj(sj.obj(old_w)[i]), inc)
+        g.eq(f"N={N} particle {i}: log weight == (old weight +) log p(choices, obs) - log q(proposed a) - log p(b | a): the self-sampled latent cancels",
+             sj.obj(Q.log_weights)[i], want)
+        if i == 0:
+            g.fault_twin("weight-is-minus-score", solve.eq_arrays(sj.obj(Q.log_weights)[i],
+                                                                  gfi.neg(ref.get_score()) if old_w is None else gfi.add(sj.obj(sj.obj(old_w)[i]), gfi.neg(ref.get_score()))))
+        # laws: a is the proposal's draw, b the model's own draw given a; both one per particle
+        for addr, mean_want, sd in (("a", sj.unlog(q.choices["a"].args[0][0].item()), 1), ("b", sj.unlog(aval.item()), sj.RV(0.75))):
+            x = sj.obj(ref.get_choices()[addr]).item()
+            nm = str(x)
+            fresh = z3.is_const(x) and nm in vm and nm not in seen
+            g.ok(f"N={N} particle {i}: {addr} is this particle's own draw", fresh, nm)
+            if not fresh:
+                continue
+            seen.add(nm)
+            site, k, oidx = vm[nm]
+            sa, _ = gfi._site_args(site)
+            mean = sj.obj(sa[0])
+            mean_i = mean[oidx[len(site.sample_shape):]] if mean.ndim else mean
+            sdv = sj.obj(sa[1])
+            sd_i = sdv[oidx[len(site.sample_shape):]] if sdv.ndim else sdv
+            g.holds(f"N={N} particle {i}: {addr} ~ normal with the {'proposal' if addr == 'a' else 'model'}'s parameters",
+                    z3.And(sj.unlog(sj.obj(mean_i).item()) == mean_want, sj.unlog(sj.obj(sd_i).item()) == sd))
